@@ -225,14 +225,15 @@ def run(ctx):
     ctx.build(["Model/Task.vo", "Spec/ClientParse.vo"])
     runner = ctx.runner("task", "ExtTask.v")
     if runner is None:
+        # the model cannot be built (translator refused the source, or a proof file broke):
+        # the model-free search below still runs on the real code to find a concrete failing input
         ctx.oblige("extracted task runner builds", False, "see notes")
-        return
     rng = ctx.rng
 
-    n_or, bad_or = oracle_hypotheses(runner)
+    n_or, bad_or = oracle_hypotheses(runner) if runner is not None else (0, ["runner not built"])
     ctx.oblige("K-oracle: Python's case mapping never yields CR/LF (all 0x110000 code points, 5 mappings, in context); the concrete instance equals Python below 256",
                not bad_or, "; ".join(bad_or[:5]))
-    for b in bad_or[:3]:
+    for b in (bad_or[:3] if runner is not None else []):
         ctx.report("oracle:" + b, "hypothesis on str.capitalize/lower fails: " + b,
                    {"failing_input_found": True, "kind": "oracle", "detail": b})
 
@@ -242,7 +243,7 @@ def run(ctx):
         table = [table[i] for i in range(0, len(table), 7)]
     cases = cases + table
     lines = [T.ser_case(c) for _, c in cases]
-    answers = runner.query(lines)
+    answers = runner.query(lines) if runner is not None else [None] * len(lines)
     agree = True
     search_ok = True
     evaluations = n_or
@@ -254,7 +255,7 @@ def run(ctx):
     for (tag, case), ans in zip(cases, answers):
         evaluations += 1
         real, extra = T.run_real(case)
-        if T.in_oracle_domain(case):
+        if ans is not None and T.in_oracle_domain(case):
             d = T.compare(case, ans, real)
             if d is not None:
                 agree = False
